@@ -59,7 +59,12 @@ def run_demo(placed, wt):
     for d in dirs:
         rel = "./" + os.path.relpath(d, wt)
         if any(p.endswith("_test.go") for p in placed if os.path.dirname(p) == d):
-            rc, out = sh(["go", "test", "-vet=off", "-count=1", "-run", "Demo|ZZ|Zz|Seed", rel], wt)
+            # a demonstration that says it needs the race detector gets it
+            race = []
+            for p in placed:
+                if os.path.dirname(p) == d and "-race" in "".join(open(p, errors="replace").readlines()[:6]):
+                    race = ["-race"]
+            rc, out = sh(["go", "test"] + race + ["-vet=off", "-count=1", "-run", "Demo|ZZ|Zz|Seed", rel], wt)
             if "no tests to run" in out:
                 rc, out = sh(["go", "test", "-vet=off", "-count=1", rel], wt)
                 # only the demo's own failures matter
